@@ -759,7 +759,7 @@ func (e *Exec) stub(fn *ssa.Function, full string, args []Value) (Value, bool) {
 			e.cmd.closed = true
 		}
 		return &IfaceV{}, true
-	case "bufio.NewWriter":
+	case "bufio.NewWriter", "bufio.NewWriterSize":
 		e.objSeq++
 		return &PtrV{obj: e.newObj(&OpaqueV{kind: "bufio", id: e.objSeq}, "bufio")}, true
 	case "(*bufio.Writer).WriteByte":
